@@ -30,6 +30,8 @@ var (
 	fDeadline = flag.Duration("w.deadline", 0, "stop starting new runs after this much wall time")
 	fTrace    = flag.Bool("w.trace", false, "keep the textual event log for every run (determinism self-test)")
 	fRepDir   = flag.String("w.repdir", "", "directory for replay files")
+	fRaceLog  = flag.String("w.racelog", "", "memory-model tier: the log_path prefix given to the race detector in GORACE")
+	fRacePkgs = flag.String("w.racepkgs", "/goirc/state/", "memory-model tier: comma-separated path fragments of the packages whose data races are violations")
 	fOnly     = flag.String("w.onlyclass", "", "comma-separated violation classes of interest; any other class is skipped like a listed finding (used to regenerate witnesses on old trees)")
 )
 
@@ -133,10 +135,47 @@ func runOnce(t *testing.T, w *World, prop, tier string, cfg simrt.Config) (*simr
 		setupEnv(env)
 		w.Run(env)
 	})
+	if simrt.RaceEnabled && *fRaceLog != "" {
+		reps := newRaceReports(*fRaceLog)
+		hit, other := raceVerdict(reps, strings.Split(*fRacePkgs, ","))
+		if res.Counters == nil {
+			res.Counters = map[string]int{}
+		}
+		res.Counters["probe.race-detector-reports-outside-the-checked-packages"] += other
+		if hit != nil && res.Verdict != "inconclusive" {
+			res.Counters["probe.race-detector-reports-in-the-checked-packages"]++
+			// a data race outranks whatever else the run found: it is what this
+			// tier exists to decide
+			res.Verdict = "violation"
+			res.Class = prop + ".data-race"
+			res.Msg = fmt.Sprintf("the race detector reports unsynchronised accesses by %s (%s) and %s (%s) in a run whose only synchronisation is the library's own:\n%s",
+				hit.Funcs[0], hit.Owners[0], hit.Funcs[1], hit.Owners[1], hit.Text)
+		}
+	}
 	if res.Verdict == "violation" && !strings.HasPrefix(res.Class, prop+".") {
 		// generic failures of the runtime (escaped panic, stall) are attributed
 		// to the property being decided
 		res.Class = prop + "." + res.Class
+	}
+	return res, env
+}
+
+// runExpect re-executes a recorded run.  The execution itself is a pure
+// function of the vectors; what the race detector notices of it is not (it
+// keeps a bounded, pseudo-randomly evicted history per memory word), so a run
+// that is expected to end in a detector report is repeated a few times until
+// the detector has seen it again.  Never used to look for new violations.
+func runExpect(t *testing.T, w *World, prop, tier string, cfg simrt.Config, class string, tries int) (*simrt.Result, *Env) {
+	if !simrt.RaceEnabled || !strings.HasSuffix(class, ".data-race") {
+		tries = 1
+	}
+	var res *simrt.Result
+	var env *Env
+	for i := 0; i < tries; i++ {
+		res, env = runOnce(t, w, prop, tier, cfg)
+		if res.Verdict == "violation" && res.Class == class {
+			break
+		}
 	}
 	return res, env
 }
@@ -241,7 +280,7 @@ func TestWorker(t *testing.T) {
 			emit(r)
 			return
 		}
-		res, env := runOnce(t, w, rf.Property, rf.Tier, simrt.Config{Seed: 1, Replay: true, PlanVec: rf.Plan, RunVec: rf.Choices, Trace: true, Strategy: -1})
+		res, env := runExpect(t, w, rf.Property, rf.Tier, simrt.Config{Seed: 1, Replay: true, PlanVec: rf.Plan, RunVec: rf.Choices, Trace: true, Strategy: -1}, rf.Class, 12)
 		r := mkRec(rf.RunIndex, rf.Seed, res, env, time.Since(t0))
 		r.Trace = res.Trace
 		emit(r)
@@ -271,7 +310,7 @@ func TestWorker(t *testing.T) {
 		if *fOnly != "" && !isKnown(strings.Split(*fOnly, ","), res.Class) {
 			r.Known = true
 		}
-		conf, _ := runOnce(t, w, *fProp, *fTier, simrt.Config{Seed: 1, Replay: true, PlanVec: res.PlanVec, RunVec: res.RunVec, Strategy: -1})
+		conf, _ := runExpect(t, w, *fProp, *fTier, simrt.Config{Seed: 1, Replay: true, PlanVec: res.PlanVec, RunVec: res.RunVec, Strategy: -1}, res.Class, 8)
 		switch {
 		case conf.Verdict != "violation" || conf.Class != res.Class:
 			r.Reconfirm = fmt.Sprintf("NOT REPRODUCED on replay: verdict=%s class=%s", conf.Verdict, conf.Class)
@@ -286,7 +325,11 @@ func TestWorker(t *testing.T) {
 				budget = budget / 4
 			}
 			plan, run, tries := minimise(t, w, *fProp, *fTier, res.PlanVec, res.RunVec, res.Class, budget)
-			final, fenv := runOnce(t, w, *fProp, *fTier, simrt.Config{Seed: 1, Replay: true, PlanVec: plan, RunVec: run, Trace: true, Strategy: -1})
+			final, fenv := runExpect(t, w, *fProp, *fTier, simrt.Config{Seed: 1, Replay: true, PlanVec: plan, RunVec: run, Trace: true, Strategy: -1}, res.Class, 8)
+			if !(final.Verdict == "violation" && final.Class == res.Class) && strings.HasSuffix(res.Class, ".data-race") {
+				// the detector did not see the minimised run again: keep the original
+				final, fenv = runExpect(t, w, *fProp, *fTier, simrt.Config{Seed: 1, Replay: true, PlanVec: res.PlanVec, RunVec: res.RunVec, Trace: true, Strategy: -1}, res.Class, 12)
+			}
 			if final.Verdict == "violation" && final.Class == res.Class {
 				rf := replayFile{
 					Property: *fProp, World: w.Name, Class: res.Class, Seed: *fSeed, RunIndex: idx, Tier: *fTier,
@@ -406,7 +449,7 @@ func minimise(t *testing.T, w *World, prop, tier string, plan, run []int32, clas
 			return false, nil, nil
 		}
 		tries++
-		res, _ := runOnce(t, w, prop, tier, simrt.Config{Seed: 1, Replay: true, PlanVec: p, RunVec: r, Strategy: -1})
+		res, _ := runExpect(t, w, prop, tier, simrt.Config{Seed: 1, Replay: true, PlanVec: p, RunVec: r, Strategy: -1}, class, 3)
 		if res.Verdict == "violation" && res.Class == class {
 			return true, res.PlanVec, res.RunVec
 		}
